@@ -8,9 +8,28 @@ from collections import defaultdict
 
 
 class Facts:
+    # the vocabulary of the rules names these types by path; a type that was moved to another module (`link::table::Links`,
+    # `rc::weak::Weak`) is the same type: its path is normalised when the name is unique in the crate
+    HOME = {"Rc": "rc", "Weak": "rc", "RcBox": "rc", "RcInnerPtr": "rc", "Link": "link", "Links": "link", "Kind": "link"}
+
     def __init__(self, path, config="dev"):
         with open(path) as fh:
-            self.doc = json.load(fh)
+            text = fh.read()
+        doc = json.loads(text)
+        crate = doc["crate"]
+        moved = []
+        for name, home in self.HOME.items():
+            hits = [a["path"] for a in doc["adts"] if a["path"].rsplit("::", 1)[-1] == name]
+            want = "%s::%s::%s" % (crate, home, name)
+            if len(hits) == 1 and hits[0] != want and not any(a["path"] == want for a in doc["adts"]):
+                moved.append((hits[0], want))
+        if moved:
+            for old, new in sorted(moved, key=lambda m: -len(m[0])):
+                rel_old, rel_new = old[len(crate) + 2:], new[len(crate) + 2:]
+                text = text.replace(old, new).replace(rel_old + "<", rel_new + "<").replace(rel_old + "::", rel_new + "::").replace(rel_old + "\"", rel_new + "\"").replace(rel_old + ">", rel_new + ">")
+            doc = json.loads(text)
+        self.doc = doc
+        self.moved_types = moved
         self.config = config
         self.crate = self.doc["crate"]
         self.fns = {}
